@@ -32,6 +32,11 @@ ASSUMPTIONS = [
     "direct oracle evaluates every posted constraint from how the user wrote it",
     "dagbig (33..64 user variables): extendability is checked on the assignments that maximise / minimise each posted "
     "inequality, their one- and two-flip neighbours and random assignments (not all 2^n)",
+    "bigstore (the store grown to 7*10^4 .. 2^21 nodes): the inequalities posted to one manager share no variable and "
+    "each is satisfiable, so the direct oracle enumerates the assignments of the variables of ONE posted inequality "
+    "(the others free): it extends iff it satisfies that inequality; the store is too big for vm_compute, so the model "
+    "is run from the EMPTY store on a sample of the checked posts and only the semantic part of c07_check is used "
+    "(statuses, predicted set of extending assignments; C07_post_store_independent, C07_post_span)",
 ]
 
 OPSTR = {"GE": ">=", "LE": "<=", "GT": ">", "LT": "<", "EQ": "=", "EQ2": "=="}
@@ -1324,7 +1329,12 @@ def run(ctx, out, replay=None):
                 "groups (k up to 32) or unit-coefficient inequalities bounded near an extreme, checked on the "
                 "assignments around the boundary of each constraint.  Variable names also come from pools of names that "
                 "are prefixes of each other (x, x1, x10, x_1), look like the internal ones (aux, robdd_x, def_), are "
-                "digits (registered through newvar(int) / newvar(float)) or non-ASCII")
+                "digits (registered through newvar(int) / newvar(float)) or non-ASCII. "
+                "BIG STORE (quick: 7*10^4 and 2^20+4096 nodes; thorough: 13 sizes up to 2^21): a long-lived manager "
+                "first fills ids 2..2*chunk, then throw-away managers grow the store chunk by chunk (1500-3000 nodes; "
+                "many small inequalities over fresh variables - the cheapest way, 60k nodes/s); after every chunk the "
+                "long-lived manager posts another non-clause inequality, past every power of two / of ten and every "
+                "16th chunk a fresh manager posts one; every posted inequality is checked by enumeration")
     cases = []
     if replay and "case" in replay:
         cases.append(fr.unjson(replay["case"]))
@@ -1334,11 +1344,11 @@ def run(ctx, out, replay=None):
         cases.append(gen_dag_case(ctx.rng, big=True) if k == 11 else
                      gen_wide_case(ctx.rng) if k % 200 == 13 else
                      gen_dag_case(ctx.rng) if k % 3 == 0 else gen_case(ctx.rng))
-    # the SIZE of the process-wide store: once per quick run past 2^20 nodes (and twice past 2^16); thorough: past
+    # the SIZE of the process-wide store: once per quick run past 2^20 nodes (and once past 2^16); thorough: past
     # 2^21, 2^20, 10^6 and ten smaller ones.  A separate generator: the cases above do not depend on it
     import random
     brng = random.Random(ctx.rng.randrange(1 << 30))
-    bt = [70000, 140000, (1 << 20) + 4096] if ctx.quick() else \
+    bt = [70000, (1 << 20) + 4096] if ctx.quick() else \
         [3000, 5000, 12000, 40000, 70000, 70000, 110000, 140000, 270000, 530000, 10 ** 6 + 8192, (1 << 20) + 8192,
          (1 << 21) + 8192]
     cases += [gen_big_case(brng, t) for t in bt]
